@@ -117,7 +117,7 @@ class Corr:
         # An undefined timeslice is represented by the None object
         self.content = [None] * padding[0] + self.content + [None] * padding[1]
         self.T = len(self.content)
-        self.prange = prange
+        self.prange = None if prange is None else list(prange)
 
     def __getitem__(self, idx):
         """Return the content of timeslice idx"""
@@ -876,7 +876,7 @@ class Corr:
         if not (0 <= prange[0] < self.T and 0 <= prange[1] < self.T and prange[0] <= prange[1]):
             raise ValueError("Start and end point must define a range in the interval 0,T")
 
-        self.prange = prange
+        self.prange = list(prange)
         return
 
     def show(self, x_range=None, comp=None, y_range=None, logscale=False, plateau=None, fit_res=None, fit_key=None, ylabel=None, save=None, auto_gamma=False, hide_sigma=None, references=None, title=None):
